@@ -446,6 +446,83 @@ def suite_gen(which: set[str]):
                             if any(bytes(r.tobytes()) != bytes(x.packed_centroid.tobytes()) for r, x in zip(node.packed_centroids, node._subclusters)) \
                                     and res.disagreement is None:
                                 res.disagreement = {"what": "cache rows differ from the entries' centroids after update_split_subclusters", "model": "-", "impl": "-"}
+            if "dump" in which:
+                # multiround._pickle_dump_atomic for real (real files), its effects recorded at the module's own open / pickle / os
+                import builtins as _bi
+                import pickle as _pickle
+                import shutil as _shutil
+                import tempfile as _tmp
+                from pathlib import Path as _P
+                import bblean.multiround as MRm
+                base = _P(_tmp.mkdtemp(prefix="bbverif-dump-", dir=os.environ.get("VERIF_SCRATCH", "/var/tmp")))
+                try:
+                    for i in range(max(20, N // 6)):
+                        ddir = base / f"d{i}"
+                        ddir.mkdir()
+                        name = rng.choice(["clusters.pkl", "cluster-centroids-packed.pkl", "x.pkl", "round-1-idxs.label-0-uint08.pkl"])
+                        final = ddir / name
+                        if rng.random() < 0.5:
+                            final.write_bytes(_pickle.dumps("old"))
+                        if rng.random() < 0.3:
+                            (ddir / (name + ".tmp")).write_bytes(b"stale-partial")
+                        obj_ = [[rng.randint(0, 99) for _ in range(rng.randint(0, 4))] for _ in range(rng.randint(0, 5))]
+                        trace: list = []
+
+                        def tok(p_):
+                            return "path" if _P(p_) == final else str(p_)
+
+                        class FProxy:
+                            def __init__(self, f, p_):
+                                self.f, self.p = f, p_
+
+                            def __enter__(self):
+                                self.f.__enter__()
+                                return self
+
+                            def __exit__(self, *a):
+                                trace.append(("close", tok(self.p)))
+                                return self.f.__exit__(*a)
+
+                        def open_(p_, mode="r", **k):
+                            trace.append(("open", tok(p_), mode))
+                            return FProxy(_bi.open(p_, mode=mode, **k), p_)
+
+                        class PkProxy:
+                            def __getattr__(self, k):
+                                return getattr(_pickle, k)
+
+                            @staticmethod
+                            def dump(o, fh, *a, **k):
+                                trace.append(("pickle.dump", tok(fh.p), "obj"))
+                                # the final name must still hold what it held, while the temporary file is being written
+                                return _pickle.dump(o, fh.f, *a, **k)
+
+                        class OsProxy:
+                            def __getattr__(self, k):
+                                return getattr(os, k)
+
+                            @staticmethod
+                            def replace(a_, b_):
+                                trace.append(("os.replace", tok(a_), tok(b_)))
+                                return os.replace(a_, b_)
+                        saved = {k: MRm.__dict__.get(k, None) for k in ("os", "pickle", "open")}
+                        MRm.os, MRm.pickle, MRm.open = OsProxy(), PkProxy(), open_
+                        try:
+                            MRm._pickle_dump_atomic(obj_, final)
+                        finally:
+                            for k, v in saved.items():
+                                if v is None:
+                                    del MRm.__dict__[k]
+                                else:
+                                    setattr(MRm, k, v)
+                        real = tuple(x for t_ in trace for x in t_)
+                        compare("_pickle_dump_atomic", [None, name, str(ddir)], real)
+                        left = sorted(q.name for q in ddir.iterdir())
+                        if (left != [name] or _pickle.loads(final.read_bytes()) != obj_) and res.disagreement is None:
+                            res.disagreement = {"what": "after _pickle_dump_atomic the directory is not exactly the complete final file",
+                                                "model": name, "impl": str(left)}
+                finally:
+                    _shutil.rmtree(base, ignore_errors=True)
             if "monitor" in which:
                 # the daemon's loop, run for real (real files) with a scripted process tree, clock and sleep; every iteration's
                 # file effects, recorded at the module's own `open` / `os` / `time` names, against the generated loop body
